@@ -1393,6 +1393,22 @@ def X6(ctx: Ctx) -> RuleResult:
         for d in fi.decorators:
             base = d.split('(')[0].split('.')[-1]
             if base in ('lru_cache', 'cache', 'cached_property', 'memoize', 'memoized'):
+                # harmless when the key cannot be an AST value (every parameter is declared with a type that is no AST
+                # class and not Any / object: functions, strings, enum members are compared by identity or value) and the
+                # cached result is an immutable value (a frozen record, a string, a number): nothing is shared that a
+                # caller could tell apart or change
+                ast_names_ = {k_.name for k_ in ctx.model.ast_classes()}
+
+                def ann_names(a_):
+                    return {x_.id for x_ in ast.walk(a_) if isinstance(x_, ast.Name)} | {x_.attr for x_ in ast.walk(a_) if isinstance(x_, ast.Attribute)} if a_ is not None else None
+                pnames = [ann_names(a_.annotation) for a_ in fi.node.args.posonlyargs + fi.node.args.args + fi.node.args.kwonlyargs if not (a_.arg in ('self', 'cls') and fi.cls is not None)]
+                keys_ok = not fi.node.args.vararg and not fi.node.args.kwarg and all(ns is not None and ns and not (ns & (ast_names_ | {'Any', 'object', 'HplAstObject'})) for ns in pnames)
+                rn = ann_names(fi.node.returns)
+                rcls = ctx.model.classes.get(next(iter(rn))) if rn and len(rn) == 1 else None
+                result_ok = bool(rn) and ((rcls is not None and rcls.is_frozen and rcls.name not in ast_names_) or rn <= {'str', 'int', 'float', 'bool', 'bytes'})
+                if keys_ok and result_ok:
+                    r.ok(f'{fi.qualname}: @{base} keyed by non-AST arguments, immutable result')
+                    continue
                 r.fail(f'{fi.qualname}:@{base}', f'{fi.qualname} is memoised with @{base}: results are shared between equal-but-distinct arguments (equality ignores metadata and identity) and between calls', fi.where)
     r.counts['module-level mutable containers'] = len(mut_globals)
     r.counts['global statements'] = g
